@@ -18,8 +18,9 @@ def binary_shapes(n):
     return out
 
 
-def make_tree(shape, prefix):
-    """ete3 tree of the shape; nodes named <prefix><preorder index>; returns (root, nodes in preorder)."""
+def make_tree(shape, prefix, names="unique"):
+    """ete3 tree of the shape; nodes named <prefix><preorder index>; returns (root, nodes in preorder).
+    names: 'unique' | 'blank-internal' (what ete3 gives for Newick without internal labels) | 'dup' (repeated names)."""
     from ete3 import Tree
 
     nodes = []
@@ -27,6 +28,10 @@ def make_tree(shape, prefix):
     def go(sh):
         t = Tree()
         t.name = f"{prefix}{len(nodes)}"
+        if names == "blank-internal" and sh:
+            t.name = ""
+        if names == "dup":
+            t.name = f"{prefix}{len(nodes) % 2}"
         nodes.append(t)
         for c in sh:
             t.add_child(go(c))
@@ -53,7 +58,7 @@ def make_input(src_root, recipe, klass="ReconciliationInput"):
     mod = native.import_real(MR, src_root)
     trees = native.import_real("superrec2.utils.trees", src_root)
     oroot, onodes = make_tree(tup(recipe["obj"]), "o")
-    sroot, snodes = make_tree(tup(recipe["sp"]), "s")
+    sroot, snodes = make_tree(tup(recipe["sp"]), "s", recipe.get("sp_names", "unique"))
     oleaves = [n for n in onodes if n.is_leaf()]
     leafmap = {l: snodes[i] for l, i in zip(oleaves, recipe["leafmap"])}
     kw = dict(object_tree=oroot, species_lca=trees.LowestCommonAncestor(sroot), leaf_object_species=leafmap,
